@@ -352,6 +352,42 @@ class ExtractMethod(ast.NodeTransformer):
         return c
 
 
+PRIVATE_ATTRS: set[str] = set()
+
+
+def _collect_private_attrs(root):
+    """names of private DATA attributes: assigned through `self._x = ...` somewhere and never defined as a method / property"""
+    PRIVATE_ATTRS.clear()
+    methods = set()
+    assigned = set()
+    for f in sorted((root / "src" / "mdpax").rglob("*.py")):
+        tree = ast.parse(f.read_text())
+        for n in ast.walk(tree):
+            if isinstance(n, ast.FunctionDef):
+                methods.add(n.name)
+            elif isinstance(n, ast.Attribute) and isinstance(n.ctx, ast.Store) and isinstance(n.value, ast.Name) and n.value.id == "self" \
+                    and n.attr.startswith("_") and not n.attr.startswith("__"):
+                assigned.add(n.attr)
+            elif isinstance(n, ast.Constant) and isinstance(n.value, str) and n.value.startswith("_"):
+                methods.add(n.value)  # names used through getattr / hasattr strings stay
+    PRIVATE_ATTRS.update(assigned - methods)
+    # a recorded known finding is identified by the attribute it sits on: renaming that attribute makes it a differently
+    # identified (unlisted) finding by the rules of the interface, so those names are left alone
+    from ..report import load_known_findings
+    for k in load_known_findings().get("known", []):
+        PRIVATE_ATTRS.discard(str(k.get("construct", "")).split(".")[-1])
+
+
+class RenamePrivateAttrs(ast.NodeTransformer):
+    """every private data attribute `self._x` (never a method, never named in a string) becomes `self._x_r` everywhere"""
+
+    def visit_Attribute(self, n):
+        self.generic_visit(n)
+        if n.attr in PRIVATE_ATTRS:
+            n.attr = n.attr + "_r"
+        return n
+
+
 SIGS: dict[str, list[str] | None] = {}
 
 
@@ -387,13 +423,15 @@ class KeywordArgs(ast.NodeTransformer):
         return n
 
 
-TRANSFORMS = {"T12": ExtractMethod, "T10": HoistArg, "T11": InlineTemp, "T8": FlipIf, "T9": KeywordArgs, "T7": AliasSelf, "T1": Rename, "T2": Commute, "T3": FlipCmp, "T4": Ident, "T5": LogLines, "T6": ReturnViaLocal}
+TRANSFORMS = {"T13": RenamePrivateAttrs, "T12": ExtractMethod, "T10": HoistArg, "T11": InlineTemp, "T8": FlipIf, "T9": KeywordArgs, "T7": AliasSelf, "T1": Rename, "T2": Commute, "T3": FlipCmp, "T4": Ident, "T5": LogLines, "T6": ReturnViaLocal}
 
 
 def overlay_for(tname, root):
     ov = {}
     if tname == "T9":
         _collect_sigs(root)
+    if tname == "T13":
+        _collect_private_attrs(root)
     for f in sorted((root / "src" / "mdpax").rglob("*.py")):
         tree = ast.parse(f.read_text())
         tree = TRANSFORMS[tname]().visit(tree)
